@@ -90,7 +90,7 @@ class State:
                 self.on_escape(k, self.v[k])
             del self.v[k]
         self.alias.pop(l, None)
-        for k in [k for k, a in self.alias.items() if (a[0] == "l" and a[1] == l) or (a[0] in ("len", "empty", "issome", "isnone") and a[1][0] == l)]:
+        for k in [k for k, a in self.alias.items() if (a[0] == "l" and a[1] == l) or (a[0] in ("len", "empty", "issome", "isnone", "below", "below_opt") and a[1][0] == l)]:
             del self.alias[k]
 
     def join_with(self, other, widen=False, widen_to=None):
@@ -149,9 +149,34 @@ def invariant_of(fvar):
     return None
 
 
+LEN_PRESERVING = ("ops::DerefMut::deref_mut", "ops::Deref::deref", "convert::AsRef::as_ref", "convert::AsMut::as_mut",
+                  "borrow::Borrow::borrow", "borrow::BorrowMut::borrow_mut", "as_mut_slice", "as_slice", "as_bytes", "as_str",
+                  "util::MsgBuffer::message", "util::MsgBuffer::message_mut")
+
+
+def len_root(body, place, depth=0):
+    """Like deep_root, but only through calls that hand out the *whole* sequence (same length): never through
+    sub-slicing (Index, split_at, MsgBuffer::buffer)."""
+    r = root_place(body, place)
+    if depth > 10:
+        return r
+    l = r["l"]
+    if 1 <= l <= body.arg_count:
+        return r
+    d = defuse(body).single_def(l)
+    if d is not None and d[0] == "call" and d[2]["args"] and callee_is(d[2], *LEN_PRESERVING):
+        # Digest::as_ref and similar conversions of non-sequence types are handled by static_len
+        p = op_place(d[2]["args"][0])
+        if p is not None:
+            inner = len_root(body, p, depth + 1)
+            if inner is not None:
+                return inner
+    return r
+
+
 def key_of(body, place):
     """Canonical key of the sequence a place denotes: (root local, tuple of field names/downcasts)."""
-    r = deep_root(body, place)
+    r = len_root(body, place)
     if r is None:
         return None
     path = []
@@ -537,6 +562,22 @@ class Intervals:
             st.set(("l", l), itv)
         if alias is not None:
             st.alias[l] = alias
+        if k == "aggregate" and rv.get("agg") == "adt" and rv.get("adt", "").endswith("ops::Range") and len(rv["ops"]) == 2:
+            el = op_local(rv["ops"][1])
+            ea = st.alias.get(el) if el is not None else None
+            s0 = self.op_itv(st, rv["ops"][0])
+            if ea is not None and ea[0] == "len" and s0 is not None and s0[0] >= 0:
+                st.alias[l] = ("below", ea[1])   # every item of this range is < len(key)
+        if k == "use":
+            sl2 = op_local(rv["op"])
+            if sl2 is not None and st.alias.get(sl2, (None,))[0] == "below":
+                st.alias[l] = st.alias[sl2]
+            sp2 = op_place(rv["op"])
+            # payload of Some(item) read from an option produced by next() on such a range
+            if sp2 is not None and len(sp2.get("p", [])) == 2 and sp2["p"][0]["k"] == "downcast" and sp2["p"][1]["k"] == "field":
+                oa = st.alias.get(sp2["l"])
+                if oa is not None and oa[0] == "below_opt":
+                    st.alias[l] = ("below", oa[1])
         if fields:
             for i, v in fields.items():
                 if v is not None:
@@ -576,6 +617,12 @@ class Intervals:
             b = self.op_itv(st, rv["b"])
             if op in ("Lt", "Le", "Gt", "Ge", "Eq", "Ne"):
                 res = self.cmp(op, a, b)
+                if op == "Lt" and res != (1, 1):
+                    la, lb = op_local(rv["a"]), op_local(rv["b"])
+                    aa = st.alias.get(la) if la is not None else None
+                    ab = st.alias.get(lb) if lb is not None else None
+                    if aa is not None and ab is not None and aa[0] == "below" and ab[0] == "len" and aa[1] == ab[1]:
+                        res = (1, 1)
             elif op.endswith("WithOverflow"):
                 res = None
             else:
@@ -746,6 +793,8 @@ class Intervals:
                 extra[("len", (d, (".0",)))] = (mid[0], min(mid[1], base[1]))
                 lo = max(0, base[0] - mid[1]) if mid[1] != INF else 0
                 extra[("len", (d, (".1",)))] = (lo, max(0, base[1] - mid[0]))
+        elif ends("convert::Into::into", "convert::From::from", "slice::<impl [T]>::to_vec", "borrow::ToOwned::to_owned", "smallvec::SmallVec::from_slice") and len(args) == 1 and self._seq_arg(args[0]) and dty.deref().k == "adt":
+            extra[("len", (d, ()))] = self.len_itv(st, args[0])
         elif ends("util::MsgBuffer::set_length") and len(args) == 2:
             kk = key_of(body, op_place(args[0])) if op_place(args[0]) else None
             n = arg_itv(1)
@@ -758,7 +807,25 @@ class Intervals:
         elif ends("convert::AsRef::as_ref", "ops::Deref::deref", "ops::DerefMut::deref_mut", "convert::AsMut::as_mut", "borrow::Borrow::borrow") and args:
             # handled through deep_root aliasing: nothing to do
             pass
+        below = None
+        if ends("iter::IntoIterator::into_iter", "iter::Iterator::by_ref") and args:
+            sl3 = op_local(args[0])
+            if sl3 is not None and st.alias.get(sl3, (None,))[0] == "below":
+                below = st.alias[sl3]
+        if ends("iter::Iterator::next") and args and op_place(args[0]) is not None:
+            r3 = root_place(body, op_place(args[0]))
+            if not r3.get("p") and st.alias.get(r3["l"], (None,))[0] == "below":
+                below = ("below_opt", st.alias[r3["l"]][1])
+        # length summary of local callees that return a sequence
+        if itv is None and ("len", (d, ())) not in extra and c.get("local") and dty.k == "adt" and any(dty.d["path"].endswith(m) for m in MUT_SEQ[:4]):
+            for kind_, cd in self.prog.cg.resolve(body, t):
+                if kind_ == "direct":
+                    rl = ret_len_summary(self.prog.by_did[cd])
+                    if rl is not None:
+                        extra[("len", (d, ()))] = rl
         st.kill_local(d)
+        if below is not None:
+            alias = alias or below
         for a in args:
             p = op_place(a)
             if p is None:
@@ -786,7 +853,7 @@ class Intervals:
                     roots = {rl} | ({dr["l"]} if dr is not None else set())
                     for kk in [k for k in st.v if k[0] == "len" and k[1][0] in roots]:
                         del st.v[kk]
-                    for kk in [k for k, al in st.alias.items() if al[0] in ("len", "empty") and al[1][0] in roots]:
+                    for kk in [k for k, al in st.alias.items() if al[0] in ("len", "empty", "below", "below_opt") and al[1][0] in roots]:
                         del st.alias[kk]
                 if body.local_ty(rl).int_range() is not None or [k for k in st.v if k[0] == "it" and k[1] == rl]:
                     # iterators advance but their item interval stays valid
@@ -837,6 +904,41 @@ class Intervals:
             return ("to", None, (b[0] + 1, b[1] + 1))
         return None
 
+    def _const_window(self, range_op):
+        """For Range{start: x, end: x + c} (same place x, constant c >= 0) the window length c, else None."""
+        body = self.body
+        from .mirutil import origin
+        o = origin(body, range_op)
+        if o[0] != "rvalue" or o[2]["rv"]["k"] != "aggregate" or not o[2]["rv"].get("adt", "").endswith("ops::Range"):
+            return None
+        a_op, b_op = o[2]["rv"]["ops"]
+        pa, pb = op_place(a_op), op_place(b_op)
+        if pa is None or pb is None:
+            return None
+        ra, rb = root_place(body, pa), root_place(body, pb)
+        projs = [e for e in rb.get("p", []) if e["k"] != "deref"]
+        d = defuse(body).single_def(rb["l"])
+        if not (len(projs) == 1 and projs[0]["k"] == "field" and projs[0]["i"] == 0 and d and d[0] == "stmt"):
+            return None
+        rv = d[3]["rv"]
+        if rv["k"] != "binop" or rv["op"] not in ("AddWithOverflow", "Add"):
+            return None
+        c = op_const(rv["b"])
+        px = op_place(rv["a"])
+        if c is None or c < 0 or px is None:
+            return None
+        rx = root_place(body, px)
+        if not _same_place(rx, ra):
+            return None
+        # x must hold the same value at both reads: the two copies are taken from one local that is not
+        # re-assigned in between (same block, or single definition)
+        if len(defuse(body).defs.get(ra["l"], [])) > 1:
+            da = defuse(body).single_def(pa["l"])
+            dx = defuse(body).single_def(px["l"])
+            if not (da and dx and da[0] == "stmt" and dx[0] == "stmt" and da[1] == dx[1] and self._local_unchanged_after(da[1], min(da[2], dx[2]), ra["l"])):
+                return None
+        return c
+
     def index_result_len(self, st, t):
         rb = self.range_bounds(st, t["args"][1])
         if rb is None:
@@ -846,6 +948,9 @@ class Intervals:
         if kind == "full":
             return base
         if kind == "range":
+            c = self._const_window(t["args"][1])
+            if c is not None:
+                return (c, c)
             return (max(0, b[0] - a[1]), max(0, b[1] - a[0]))
         if kind == "to":
             return b
@@ -924,7 +1029,8 @@ class Intervals:
                                 tr2 = ty_range(self.prog.ty(rv2["ty"]))
                                 if sr and tr2 and sr[0] >= tr2[0] and sr[1] <= tr2[1]:
                                     src = self.var_of_op(st, rv2["op"])
-                        if src is not None and src[0] == "l" and len(src) == 2 and self._ssa_like(src[1]):
+                        if src is not None and src[0] == "l" and len(src) == 2 and (self._ssa_like(src[1]) or (
+                                dd[1] == self._cur_block and self._local_unchanged_after(dd[1], dd[2], src[1]))):
                             refine_var(src, itv, depth + 1)
                         elif src is not None and src[0] == "f" and dd[1] == self._cur_block and self._field_unchanged_after(dd[1], dd[2], src):
                             cur = st.get(src)
@@ -960,6 +1066,17 @@ class Intervals:
                     refine_var(vb, (bi_[0] + 1, INF))
                 elif bi_[1] == ai[0]:
                     refine_var(vb, (-INF, bi_[1] - 1))
+
+    def _local_unchanged_after(self, bi, si, l):
+        """Local l is not assigned (nor mutably borrowed) after statement si in block bi."""
+        for s2 in self.body.blocks[bi]["stmts"][si + 1:]:
+            if s2["k"] == "assign":
+                if s2["place"]["l"] == l:
+                    return False
+                rv = s2["rv"]
+                if rv["k"] in ("ref", "rawptr") and rv.get("mut") and rv["place"]["l"] == l:
+                    return False
+        return True
 
     def _field_unchanged_after(self, bi, si, fvar):
         """No statement after index si in block bi stores to the tracked field (the terminator is the branch)."""
@@ -1124,7 +1241,7 @@ class Intervals:
                     changed = True
                 else:
                     visits[succ] = visits.get(succ, 0) + 1
-                    widen = succ in self.loop_heads and visits[succ] > 3
+                    widen = succ in self.loop_heads and visits[succ] > 64
                     changed = self.block_in[succ].join_with(ns, widen=widen)
                 if changed and succ not in inwork:
                     work.append(succ)
@@ -1298,7 +1415,7 @@ def _discharge_with(site, an):
         cls = site.kind[4:]
         args = t["args"]
         if cls == "index" and len(args) == 2:
-            g = _cursor_prefix_guard(body, t) or _str_find_guard(body, t)
+            g = _cursor_prefix_guard(body, t) or _str_find_guard(body, t) or _find_window_guard(body, t)
             if g:
                 return True, g
             base = an.len_itv(st, args[0])
@@ -1521,3 +1638,98 @@ def _same_len_guard(an, st, body, dst, src):
         return None
     # the base must be long enough: that is the Index site's own obligation
     return "destination is x[0..n] with n = len() of the source slice"
+
+
+def _find_window_guard(body, t):
+    """s[a..b] with b = a + k where k is the payload of Some returned by s[a..].find(..): the match lies inside
+    s[a..], so a + k <= len(s) (and both ends are char boundaries provided a is one, which the sibling site
+    s[a..] requires anyway)."""
+    from .mirutil import origin
+    args = t["args"]
+    rng = origin(body, args[1])
+    if rng[0] != "rvalue" or rng[2]["rv"]["k"] != "aggregate" or not rng[2]["rv"].get("adt", "").endswith("ops::Range"):
+        return None
+    a_op, b_op = rng[2]["rv"]["ops"]
+    pa = op_place(a_op)
+    pb = op_place(b_op)
+    if pa is None or pb is None:
+        return None
+    ra = root_place(body, pa)
+    rb = root_place(body, pb)
+    # b = (a + k).0
+    projs = [e for e in rb.get("p", []) if e["k"] != "deref"]
+    d = defuse(body).single_def(rb["l"])
+    if not (len(projs) == 1 and projs[0]["k"] == "field" and projs[0]["i"] == 0 and d and d[0] == "stmt"):
+        return None
+    rv = d[3]["rv"]
+    if rv["k"] != "binop" or rv["op"] not in ("AddWithOverflow", "Add"):
+        return None
+    x, k = rv["a"], rv["b"]
+    px = op_place(x)
+    if px is None or not _same_place(root_place(body, px), ra):
+        return None
+    # k = (find_result as Some).0
+    pk = op_place(k)
+    if pk is None:
+        return None
+    rk = root_place(body, pk)
+    kp = [e for e in rk.get("p", []) if e["k"] != "deref"]
+    if not (len(kp) == 2 and kp[0]["k"] == "downcast" and kp[0].get("v") == "Some"):
+        return None
+    dk = defuse(body).single_def(rk["l"])
+    if not (dk and dk[0] == "call" and callee_is(dk[2], "str::<impl str>::find")):
+        return None
+    # receiver of find is s[a..] of the same string
+    o = origin(body, dk[2]["args"][0])
+    if o[0] != "call" or not callee_is(o[2], "ops::Index::index"):
+        return None
+    r2 = origin(body, o[2]["args"][1])
+    if r2[0] != "rvalue" or not r2[2]["rv"].get("adt", "").endswith("ops::RangeFrom"):
+        return None
+    pa2 = op_place(r2[2]["rv"]["ops"][0])
+    if pa2 is None or not _same_place(root_place(body, pa2), ra):
+        return None
+    s1 = deep_root(body, o[2]["args"][0])
+    s2 = deep_root(body, args[0])
+    if s1 is None or s2 is None or s1["l"] != s2["l"]:
+        return None
+    # the local `a` must not be redefined between the three uses: single definition
+    if len(defuse(body).defs.get(ra["l"], [])) != 1:
+        return None
+    return "window [a..a+k] with k = position found inside s[a..]"
+
+
+def _same_place(a, b):
+    if a["l"] != b["l"]:
+        return False
+    pa = [(e["k"], e.get("i"), e.get("l")) for e in a.get("p", [])]
+    pb = [(e["k"], e.get("i"), e.get("l")) for e in b.get("p", [])]
+    return pa == pb
+
+
+_RET_LEN = {}
+
+
+def ret_len_summary(body):
+    """Interval of the length of the sequence returned by a local function (join over its return blocks)."""
+    if body.did in _RET_LEN:
+        return _RET_LEN[body.did]
+    if body.did in _IN_PROGRESS or len(_IN_PROGRESS) > 6:
+        return None
+    _IN_PROGRESS.add(body.did)
+    try:
+        an = analyse(body)
+        acc = None
+        for bi in body.cfg.exits:
+            st = an.state_at(bi)
+            if st is None:
+                continue
+            v = st.get(("len", (0, ())))
+            if v is None:
+                acc = None
+                break
+            acc = v if acc is None else join(acc, v)
+    finally:
+        _IN_PROGRESS.discard(body.did)
+    _RET_LEN[body.did] = acc
+    return acc
